@@ -311,7 +311,7 @@ def _do_check(pid, tier, only, want_playback, P, sd, seed, t0):
     replay_paths = []
     lines = []
     if violations:
-        rd = VERIF / "replays"
+        rd = Path(os.environ.get("VERIF_REPLAY_DIR") or (VERIF / "replays"))
         rd.mkdir(exist_ok=True)
         for key, r in violations:
             h = r["harness"]
@@ -430,7 +430,7 @@ def write_and_exit(pid, tier, seed, t0, P, harnesses, results, vres, undecided, 
         "violations": nviol,
         "exit_status": status,
     }
-    ed = VERIF / "evidence"
+    ed = Path(os.environ.get("VERIF_EVIDENCE_DIR") or (VERIF / "evidence"))
     ed.mkdir(exist_ok=True)
     (ed / ("%s.json" % pid)).write_text(json.dumps(ev, indent=1, default=str))
     log("[driver] %s tier=%s: %d harnesses, %d/%d complete obligations discharged (+%d bounded stand-ins), verus %d/%d, wall %.0fs -> exit %d"
